@@ -1,6 +1,7 @@
 package faultrig
 
 import (
+	"crypto/tls"
 	"fmt"
 	"net"
 	"strings"
@@ -14,12 +15,12 @@ import (
 // bytes of its reply and then ends the connection with FIN or RST.
 type CutCase struct {
 	Name    string `json:"name"`
-	Route   string `json:"route"`   // "direct" | "upstream" (plain request forwarded through an upstream HTTP proxy)
+	Route   string `json:"route"`   // "direct" | "upstream" (plain request forwarded through an upstream HTTP proxy) | "tls" (https origin) | "mitm" (client inside an intercepted TLS session, https origin)
 	Framing string `json:"framing"` // "length" | "chunked" | "close"
 	Proto   string `json:"proto"`   // client speaks "HTTP/1.1" | "HTTP/1.0"
 	Method  string `json:"method"`
 	K       int    `json:"k"`
-	End     string `json:"end"` // "fin" | "rst"
+	End     string `json:"end"` // "fin" | "rst" | TLS origin: "tlscut" (TCP FIN without close_notify), "tlsnotify" (close_notify, orderly)
 	// filled by the run
 	ReplyLen   int    `json:"reply_len"`
 	HeadLen    int    `json:"head_len"`
@@ -49,7 +50,7 @@ func (c CutCase) Coq() string {
 		minor = 0
 	}
 	return fmt.Sprintf("(mkfcase %d %s %s %d %d %s %s %s %d %d %d %d %s %s %d %d %d %d)",
-		fr, coqfmt.Bool(c.End == "rst"), coqfmt.Bool(c.Full), c.UpStatus, c.BodySent, bodyRef,
+		fr, coqfmt.Bool(c.End == "rst" || c.End == "tlscut"), coqfmt.Bool(c.Full), c.UpStatus, c.BodySent, bodyRef,
 		coqfmt.Bytes(c.Raw), coqfmt.Bool(c.ClientEnd == "eof"), verdictN(c.Go.Verdict), c.Go.Status, c.Go.BodyLen, c.Go.RestLen,
 		coqfmt.Bool(hasErrHdr), coqfmt.Bool(c.HarnessErr == ""), c.K, c.HeadLen, c.ReplyLen, minor)
 }
@@ -122,23 +123,42 @@ func CutCases(tier string) []CutCase {
 			}
 		}
 	}
+	for _, route := range []string{"tls", "mitm"} {
+		for _, framing := range []string{"length", "chunked", "close"} {
+			reply, hl := cutReply(framing)
+			for _, end := range []string{"tlscut", "rst", "tlsnotify"} {
+				for k := 0; k <= len(reply); k++ {
+					if tier != "thorough" && k != len(reply) && k != hl && k%7 != 0 {
+						continue
+					}
+					out = append(out, CutCase{
+						Name:  fmt.Sprintf("cut-%s-%s-%s-%s-%d", route, framing, "HTTP/1.1", end, k),
+						Route: route, Framing: framing, Proto: "HTTP/1.1", Method: "GET", K: k, End: end,
+					})
+				}
+			}
+		}
+	}
 	return out
 }
 
 // CutRig holds the long-lived parts of the sweep: one proxy per route, one
 // scripted origin (behaviour selected by the request path), one upstream relay.
 type CutRig struct {
-	direct   *Rig
-	viaUp    *Rig
-	origin   *Peer
-	upstream *Peer
+	direct    *Rig
+	viaUp     *Rig
+	tlsRig    *Rig
+	mitmRig   *Rig
+	origin    *Peer
+	originTLS *Peer
+	upstream  *Peer
 }
 
 // NewCutRig starts the peers and the proxies.
 func NewCutRig() (*CutRig, error) {
 	cr := &CutRig{}
 	var err error
-	cr.origin, err = NewPeer(func(c net.Conn, n int) {
+	script := func(c net.Conn, raw net.Conn) {
 		head, err := ReadHead(c, 5*time.Second)
 		if err != nil {
 			c.Close()
@@ -182,11 +202,32 @@ func NewCutRig() (*CutRig, error) {
 		}
 		// let the bytes reach the proxy before the connection ends (a reset may overtake data still in flight)
 		time.Sleep(15 * time.Millisecond)
-		if end == "rst" {
-			Reset(c)
-		} else {
-			c.Close()
+		switch end {
+		case "rst":
+			Reset(raw)
+		case "tlscut":
+			raw.Close() // TCP FIN without a TLS close_notify
+		default:
+			c.Close() // plain: FIN; TLS: close_notify, then FIN
 		}
+	}
+	cr.origin, err = NewPeer(func(c net.Conn, n int) { script(c, c) })
+	if err != nil {
+		return nil, err
+	}
+	cert, _, err := SelfSigned()
+	if err != nil {
+		return nil, err
+	}
+	cr.originTLS, err = NewPeer(func(c net.Conn, n int) {
+		tc := tls.Server(c, &tls.Config{Certificates: []tls.Certificate{cert}, MinVersion: tls.VersionTLS12})
+		tc.SetDeadline(time.Now().Add(5 * time.Second))
+		if err := tc.Handshake(); err != nil {
+			c.Close()
+			return
+		}
+		tc.SetDeadline(time.Time{})
+		script(tc, c)
 	})
 	if err != nil {
 		return nil, err
@@ -233,6 +274,12 @@ func NewCutRig() (*CutRig, error) {
 	if cr.viaUp, err = New(Options{Upstream: "http://" + cr.upstream.Addr}); err != nil {
 		return nil, err
 	}
+	if cr.tlsRig, err = New(Options{InsecureUpstream: true}); err != nil {
+		return nil, err
+	}
+	if cr.mitmRig, err = New(Options{MITM: true, InsecureUpstream: true}); err != nil {
+		return nil, err
+	}
 	return cr, nil
 }
 
@@ -240,7 +287,10 @@ func NewCutRig() (*CutRig, error) {
 func (cr *CutRig) Close() {
 	cr.direct.Close()
 	cr.viaUp.Close()
+	cr.tlsRig.Close()
+	cr.mitmRig.Close()
 	cr.origin.Close()
+	cr.originTLS.Close()
 	cr.upstream.Close()
 }
 
@@ -249,24 +299,49 @@ func (cr *CutRig) Run(c *CutCase) {
 	reply, headLen := cutReply(c.Framing)
 	c.ReplyLen, c.HeadLen, c.Body, c.UpStatus = len(reply), headLen, cutBody, 200
 	c.BodySent = decodedSent(c.Framing, reply, headLen, c.K)
-	c.Full = c.K == len(reply) && (c.Framing != "close" || c.End == "fin")
-	if c.Framing == "close" && c.End == "fin" && c.K >= headLen {
+	orderly := c.End == "fin" || c.End == "tlsnotify"
+	c.Full = c.K == len(reply) && (c.Framing != "close" || orderly)
+	if c.Framing == "close" && orderly && c.K >= headLen {
 		// an orderly close after k bytes IS the end of a close-delimited body
 		c.Full = true
 		c.Body = cutBody[:c.K-headLen]
 	}
 	rig := cr.direct
-	if c.Route == "upstream" {
+	switch c.Route {
+	case "upstream":
 		rig = cr.viaUp
+	case "tls":
+		rig = cr.tlsRig
+	case "mitm":
+		rig = cr.mitmRig
 	}
-	conn, err := Dial(rig.Addr)
+	raw, err := Dial(rig.Addr)
 	if err != nil {
 		c.HarnessErr = "dial proxy: " + err.Error()
 		return
 	}
-	defer conn.Close()
+	defer raw.Close()
+	var conn net.Conn = raw
 	target := fmt.Sprintf("http://%s/cut/%s/%d/%s", cr.origin.Addr, c.Framing, c.K, c.End)
 	req := reqLine(c.Method, target, c.Proto)
+	switch c.Route {
+	case "tls":
+		req = reqLine(c.Method, fmt.Sprintf("https://%s/cut/%s/%d/%s", cr.originTLS.Addr, c.Framing, c.K, c.End), c.Proto)
+	case "mitm":
+		raw.Write([]byte(connectReq(cr.originTLS.Addr)))
+		co := ReadResponse(raw, true, 3*time.Second)
+		if co.P.Verdict != VComplete || co.P.Status != 200 {
+			c.HarnessErr = "mitm CONNECT not accepted"
+			return
+		}
+		tc, err := TLSClient(raw, "127.0.0.1")
+		if err != nil {
+			c.HarnessErr = "mitm handshake: " + err.Error()
+			return
+		}
+		conn = tc
+		req = fmt.Sprintf("%s /cut/%s/%d/%s %s\r\nHost: %s\r\n\r\n", c.Method, c.Framing, c.K, c.End, c.Proto, cr.originTLS.Addr)
+	}
 	if _, err := conn.Write([]byte(req)); err != nil {
 		c.HarnessErr = "client write: " + err.Error()
 		return
